@@ -22,6 +22,9 @@ let rec dump (v : value) : string list = match v with
   | JString s -> ["s" ^ hexs s]
   | JList l -> ("L" ^ string_of_int (List.length l)) :: List.concat_map dump l
   | JMap m -> ("M" ^ string_of_int (List.length m)) :: List.concat_map (fun (k, x) -> ("k" ^ hexs k) :: dump x) m
+  | JUInt z -> ["u" ^ dec_of_z z]
+  | JUInt64 z -> ["U" ^ dec_of_z z]
+  | JArray l -> ("A" ^ string_of_int (List.length l)) :: List.concat_map dump l
 
 let msg_text n = match int_of_nat n with
   | 1 -> "Unexpected_end_of_file" | 2 -> "Expected_hexadecimal_digit" | 3 -> "Expected_hexadecimal_number"
@@ -44,6 +47,11 @@ let rec build (items : string list) : value * string list = match items with
     (match it.[0] with
      | 'n' -> (JNull, rest) | 't' -> (JBool true, rest) | 'f' -> (JBool false, rest)
      | 'i' -> (JInt (z_of_dec arg), rest) | 'I' -> (JInt64 (z_of_dec arg), rest)
+     | 'u' -> (JUInt (z_of_dec arg), rest) | 'U' -> (JUInt64 (z_of_dec arg), rest)
+     | 'A' -> let n = int_of_string arg in
+       let rec go k rest acc = if k = 0 then (List.rev acc, rest) else
+           let (v, rest') = build rest in go (k - 1) rest' (v :: acc) in
+       let (l, rest') = go n rest [] in (JArray l, rest')
      | 's' -> (JString (hexarg arg), rest)
      | 'L' -> let n = int_of_string arg in
        let rec go k rest acc = if k = 0 then (List.rev acc, rest) else
@@ -77,7 +85,10 @@ let rt_line model t0 tr =
     | None -> "! oob"
   end else
     (* in the class: the flag is 1 and the tree read back is the canonical form of the tree *)
-    (if in_class v then "1 | ? ok " ^ String.concat " " (dump (canon v)) else "?")
+    (if in_class v then "1 | ? ok " ^ String.concat " " (dump (canon v))
+     (* the extension (unsigned integers, arrays): no claim about equality, the tree read back is readback v *)
+     else if in_ext v then "? | ? ok " ^ String.concat " " (dump (readback v))
+     else "?")
 
 let () =
   let mode = Sys.argv.(1) and file = Sys.argv.(2) in
@@ -142,6 +153,12 @@ let () =
               emit (Printf.sprintf "serr Syntax_error_at_line_%s,_column_%s:_%s" (dec_of_z l) (dec_of_z c) (msg_text k))
             | _ -> (match result_text r with Some a -> emit a | None -> emit "! oob")
           end else emit "??*"
+        | ["xscan"; h] ->
+          if model then
+            (match scanf_hex (cstr (bytes_of_hex h)) with
+             | Some w -> emit ("1 " ^ dec_of_z w)
+             | None -> emit "0 -")
+          else emit "? ?"
         | ["chkpos"; h; l; c] ->
           if model then emit "-" else
           emit (if position_insideb (cstr (bytes_of_hex h)) (z_of_dec l) (z_of_dec c) then "1" else "0")
